@@ -42,6 +42,7 @@ def judge(chk: Check, scenarios, results, verdicts, clause: str, pid: str, what:
 def run(chk: Check) -> None:
     vectors = progspace.enumerate_vectors(chk, with_args=True)
     scenarios = progspace.build_batches(chk, with_extra=True, vectors=vectors, seeds_per_codemod=chk.pick(2, 6), vectors_per_seed=chk.pick(9, 50))
+    scenarios += progspace.build_line_filter_batches(chk, multi_statement_only=chk.quick)
     scenarios += progspace.build_sast(chk, max_per_codemod=chk.pick(1, 4))
     results, verdicts = progspace.run_batches(chk, scenarios)
     judge(chk, scenarios, results, verdicts, CLAUSE, "C01", "the rewritten file no longer compiles / parses")
